@@ -45,7 +45,7 @@ static void check_history(const HistC &h, vf::Obs &o) {
   o.cls("length:" + std::to_string(std::min<size_t>(h.ops.size() / 10 * 10, 200)) + "+");
   if (in.moves_seen) o.cls("has-move");
   if (in.throws_seen) o.cls("has-throwing-call");
-  bool nt = g_focus == hist::F_C02 ? (in.moves_seen + in.throws_seen > 0 || in.nt_c14) : g_focus == hist::F_C09 ? in.nt_c09 : g_focus == hist::F_C10 ? in.nt_c10 : g_focus == hist::F_C14 ? in.nt_c14 : (in.nt_c09 || in.nt_c10 || in.nt_c14);
+  bool nt = (g_focus == hist::F_C02 || g_focus == hist::F_C15) ? (in.moves_seen + in.throws_seen > 0 || in.nt_c14) : g_focus == hist::F_C09 ? in.nt_c09 : g_focus == hist::F_C10 ? in.nt_c10 : g_focus == hist::F_C14 ? in.nt_c14 : (in.nt_c09 || in.nt_c10 || in.nt_c14);
   o.nt(nt);
   if (in.failed) o.fail(in.why);
 }
@@ -69,8 +69,8 @@ int main(int argc, char **argv) {
   for (int i = 1; i + 1 < argc; i++)
     if (std::string(argv[i]) == "--focus") {
       std::string f = argv[i + 1];
-      g_focus = f == "C09" ? hist::F_C09 : f == "C10" ? hist::F_C10 : f == "C14" ? hist::F_C14 : f == "C02" ? hist::F_C02 : hist::F_ALL;
-      g_prop = f == "C09" ? "C09" : f == "C14" ? "C14" : f == "C02" ? "C02" : "C10";
+      g_focus = f == "C09" ? hist::F_C09 : f == "C10" ? hist::F_C10 : f == "C14" ? hist::F_C14 : f == "C02" ? hist::F_C02 : f == "C15" ? hist::F_C15 : hist::F_ALL;
+      g_prop = f == "C09" ? "C09" : f == "C14" ? "C14" : f == "C02" ? "C02" : f == "C15" ? "C15" : "C10";
       for (int j = i; j + 2 < argc; j++) argv[j] = argv[j + 2];
       argc -= 2;
       break;
